@@ -11,10 +11,10 @@ TRUST = ("Trusted base: the harness (model backend rlbox_vsbx_sandbox.hpp, mon.h
 # id -> (technique, level text, design_ref, extra note)
 CLAIMED = {
     "C06": ("runtime monitoring: exhaustive/sampled value sweeps of the real conversion code against a 128-bit integer reference oracle (flag-mode abort capture), plus monitored store/load/invoke/callback/array paths (arrays incl. bool elements) on three foreign-ABI model backends under ASan+UBSan",
-            "Exploration with an exact reference oracle. Every ordered pair of the 15 integer types is swept through convert_type_fundamental: exhaustively for sources <=16 bit (quick) / <=32 bit (thorough), boundaries +-neighbourhood and random for wider sources; the same oracle judges real stores, loads, arguments, results, callback arguments/results and array elements on ILP32, NARROW and WIDE model backends, with the guest-side value read from raw memory / the guest event log. Compound assignments whose left operand is the sandbox cell (0 += v, 0 |= v) are store paths of their own.",
+            "Exploration with an exact reference oracle. Every ordered pair of the 15 integer types is swept through convert_type_fundamental: exhaustively for sources <=16 bit (quick) / <=32 bit (thorough), boundaries +-neighbourhood and random for wider sources; the same oracle judges real stores, loads, arguments, results, callback arguments/results and array elements on ILP32, NARROW and WIDE model backends, with the guest-side value read from raw memory / the guest event log. Compound assignments whose left operand is the sandbox cell (0 += v, 0 |= v) are store paths of their own. The array sweep also runs with std::array<volatile T,N> destinations and sources (the shape of arrays in sandbox memory).",
             "DESIGN.md section 5 C06", ""),
     "C16": ("runtime monitoring: generated operator forms (compiler used only as feasibility filter) executed under ASan+UBSan and compared value-by-value with the plain C++ expression (lock-step reference)",
-            "Exploration. Every (operator, lhs wrapper, rhs wrapper, type pair) form that compiles is executed on the ILP32 model backend; result type (run-time boolean), result value and operand post-state are compared with the plain expression for all 65536 operand pairs of 8-bit x 8-bit forms and boundary+random sets otherwise; plain expressions with undefined behaviour are excluded by a 128-bit validity predicate. The forms that store into sandbox memory run a second time on the WIDE model (cells wider than the application type; all sandbox-touching forms in the thorough tier); the 436 int/int and long/long forms must compile, and every form that was a program on the pinned tree (baseline_forms/C16.txt, 52803 identities) must still be one (otherwise inconclusive).",
+            "Exploration. Every (operator, lhs wrapper, rhs wrapper, type pair) form that compiles is executed on the ILP32 model backend; result type (run-time boolean), result value and operand post-state are compared with the plain expression for all 65536 operand pairs of 8-bit x 8-bit forms and boundary+random sets otherwise; plain expressions with undefined behaviour are excluded by a 128-bit validity predicate. The forms that store into sandbox memory run a second time on the WIDE model (cells wider than the application type; all sandbox-touching forms in the thorough tier); the 436 int/int and long/long forms must compile, and every form that was a program on the pinned tree (baseline_forms/C16.txt, 52803 identities) must still be one (otherwise inconclusive). Mixed pairs include a signed left operand with an unsigned right operand of the same rank; an abort of a compound update is accepted only when the value the operand would hold afterwards does not fit the stored type.",
             "DESIGN.md section 5 C16", ""),
 }
 CLAIMED.update(json.load(open(os.path.join(VERIF, "tools", "claimed_extra.json"))) if os.path.exists(os.path.join(VERIF, "tools", "claimed_extra.json")) else {})
